@@ -107,6 +107,25 @@ def uploadCap {S : Type} (h : Hasher S) (uebHashOf : Bytes → Bytes → Nat →
       | none => none
       | some key => some { cap := .chk key (uebHashOf key pt k n segsize) k n pt.length, sharesPushed := n }
 
+/-- outcome of `Uploader.upload` on a client that currently knows `servers` storage servers -/
+inductive UploadOutcome where
+  | ok (r : UploadResult)
+  | noServers          -- `NoServersError("client gave us zero servers")` from `Tahoe2ServerSelector.get_shareholders`
+  | error              -- parameter errors (`ValueError` of the convergence tag, ZeroDivisionError for `k = 0`)
+  deriving DecidableEq, Repr
+
+/-- `Uploader.upload` with the storage broker's server list as an input.  The order is the code's: the size is
+    compared with `URI_LIT_SIZE_THRESHOLD` *first* and `LiteralUploader` never touches the broker; only the CHK
+    branch (after the key and storage index exist) asks `storage_broker.get_servers_for_psi` and raises
+    NoServersError on an empty answer.  (Placement / happiness with a non-empty server list is C06/C07.) -/
+def uploadCapOn {S : Type} (h : Hasher S) (uebHashOf : Bytes → Bytes → Nat → Nat → Nat → Bytes) (servers : Nat)
+    (convergence : Option Bytes) (urandom : Bytes) (k n maxSeg : Nat) (pt : Bytes) (reads : List Bytes) : UploadOutcome :=
+  if isLiteral pt.length then .ok { cap := .lit pt, sharesPushed := 0 }
+  else
+    match uploadCap h uebHashOf convergence urandom k n maxSeg pt reads with
+    | none => .error
+    | some r => if servers = 0 then .noServers else .ok r
+
 /-- `CHKFileURI.storage_index = storage_index_hash(key)`; literal caps have none -/
 def storageIndex (siHash : Bytes → Bytes) : Cap → Option Bytes
   | .lit _ => none
